@@ -26,6 +26,7 @@ ASSUMPTIONS = ['scheduling points are entries of Python functions defined in the
 LEVEL_TEXT = ('History and schedule properties have no fixed expected value; every transition of every history up to the bound, every reachable state of the closure alphabet and '
               'every schedule up to the pre-emption bound is compared with a fresh-world / solo run of the same operation on the real code.')
 
+BUDGETS = {'level': 900, 'histories': 600, 'expand': 600, 'monitor': 600, 'free_running': 900, 'chain': 900}
 CFG1 = {'max_calc_step_size_feet': 0.25, 'cGravityConstant': -30.0, 'cMaximumDrop': -500.0}
 SHOTS = 'ABCDEFGH'
 
